@@ -4,6 +4,7 @@ import (
 	"fmt"
 	"go/token"
 	"go/types"
+	"regexp"
 	"sort"
 	"strings"
 
@@ -47,6 +48,9 @@ type verInfo struct {
 	limit  string   // framed havoc: refs below limit and not exempt are unchanged
 	exempt []string // refs exempt from the frame
 	framed bool     // a framed havoc exists at or below this version
+	cond     string // ite: condition selecting parent
+	storeRef string // store: reference written
+	storeVal string // store: value written
 }
 
 type VC struct {
@@ -73,6 +77,11 @@ type VC struct {
 	assumptionsUsed map[string]bool
 	pendingFree     map[ssa.Value]Val
 	inlined         map[string]bool
+	allocTerm       string // bound for every make in the function under contract ("" = none)
+	rootOlds        []Val  // values of the contract's old bindings (entry state)
+	knownLen        map[string]int // slice terms with a small constant length
+	readMemo        map[string]string
+	rootRets        []retInfo // the return sites of the function under contract (unmerged)
 	freshRefs       map[string]bool
 	inlineAll       bool
 	usedContracts   map[string]bool
@@ -94,7 +103,7 @@ type InputVar struct {
 func (eng *Engine) newVC(root *ssa.Function, key string) *VC {
 	return &VC{eng: eng, root: root, rootKey: key, declared: map[string]bool{}, heapSort: map[string]string{},
 		heapType: map[string]types.Type{}, ver: map[string]*verInfo{}, frameMemo: map[string]bool{}, strs: map[string]string{}, budget: 60000,
-		oblCount: map[string]int{}, assumptionsUsed: map[string]bool{}, usedContracts: map[string]bool{}, callOrd: map[string]int{}}
+		oblCount: map[string]int{}, assumptionsUsed: map[string]bool{}, usedContracts: map[string]bool{}, callOrd: map[string]int{}, knownLen: map[string]int{}, readMemo: map[string]string{}}
 }
 
 func (vc *VC) sorts() *Sorts { return vc.eng.sorts }
@@ -302,12 +311,63 @@ func (vc *VC) frameFacts(ver, ref string) {
 func (vc *VC) readCell(st *State, key, ref string) string {
 	v := vc.heapVer(st, key)
 	vc.frameFacts(v, ref)
-	return fmt.Sprintf("(select %s %s)", v, ref)
+	if vc.quant > 0 {
+		return fmt.Sprintf("(select %s %s)", v, ref)
+	}
+	return vc.readVer(v, ref, vc.heapCellSort(key), 0)
+}
+
+func (vc *VC) heapCellSort(key string) string {
+	// heap sort is (Array (_ BitVec 64) <cell>)
+	s := vc.heapSort[key]
+	const pre = "(Array (_ BitVec 64) "
+	if strings.HasPrefix(s, pre) {
+		return s[len(pre) : len(s)-1]
+	}
+	return ""
+}
+
+// readVer resolves a read at generation time where the version structure
+// allows it: through joins (select of an ite of arrays becomes an ite of
+// selects) and through stores to the syntactically same reference. This keeps
+// array-ite reasoning away from the solvers.
+func (vc *VC) readVer(ver, ref, cellSort string, depth int) string {
+	plain := fmt.Sprintf("(select %s %s)", ver, ref)
+	info, ok := vc.ver[ver]
+	if !ok || cellSort == "" || depth > 40 {
+		return plain
+	}
+	mk := ver + "|" + ref
+	if r, ok := vc.readMemo[mk]; ok {
+		return r
+	}
+	res := plain
+	switch info.kind {
+	case 1:
+		if info.storeRef == ref {
+			res = info.storeVal
+		} else if info.storeRef != "" && vc.freshRefs[info.storeRef] && vc.freshRefs[ref] {
+			// two different allocation sites: different objects
+			res = vc.readVer(info.parent, ref, cellSort, depth+1)
+		}
+	case 2:
+		a := vc.readVer(info.parent, ref, cellSort, depth+1)
+		b := vc.readVer(info.other, ref, cellSort, depth+1)
+		res = vc.def(cellSort, "rd", sIte(info.cond, a, b))
+	}
+	vc.readMemo[mk] = res
+	return res
 }
 
 func (vc *VC) writeCell(st *State, key, ref, val string) {
 	v := vc.heapVer(st, key)
-	vc.setHeap(st, key, fmt.Sprintf("(store %s %s %s)", v, ref, val), &verInfo{kind: 1, parent: v})
+	valName := val
+	if vc.quant == 0 {
+		if cs := vc.heapCellSort(key); cs != "" {
+			valName = vc.def(cs, "cell", val)
+		}
+	}
+	vc.setHeap(st, key, fmt.Sprintf("(store %s %s %s)", v, ref, valName), &verInfo{kind: 1, parent: v, storeRef: ref, storeVal: valName})
 }
 
 // mergeStates joins states along edges with the given conditions (the last
@@ -368,7 +428,7 @@ func (vc *VC) mergeStates(conds []string, sts []*State) *State {
 			prev := cur
 			term := sIte(conds[i], vals[i], prev)
 			st2 := &State{heap: map[string]string{}}
-			cur = vc.setHeap(st2, k, term, &verInfo{kind: 2, parent: vals[i], other: prev})
+			cur = vc.setHeap(st2, k, term, &verInfo{kind: 2, parent: vals[i], other: prev, cond: conds[i]})
 		}
 		out.heap[k] = cur
 	}
@@ -489,5 +549,87 @@ func (vc *VC) script(o *Obligation, produceModels bool) string {
 		b.WriteString("(assert (not " + o.Goal + "))\n")
 	}
 	b.WriteString("(check-sat)\n")
+	return b.String()
+}
+
+var symRe = regexp.MustCompile(`g_[A-Za-z0-9_]+`)
+
+// sliceScript keeps, of a full query, only the definitions in the cone of
+// influence of the goal and the assumptions that speak exclusively about that
+// cone (and no quantified facts). Dropping assumptions only weakens the
+// hypotheses, so an unsat answer on the sliced query is a valid discharge.
+func sliceScript(script string) string {
+	lines := strings.Split(script, "\n")
+	defBody := map[string]string{} // defined name -> body text
+	isVar := map[string]bool{}
+	for _, l := range lines {
+		if strings.HasPrefix(l, "(define-fun ") || strings.HasPrefix(l, "(declare-const ") {
+			f := strings.Fields(l)
+			if len(f) >= 2 {
+				isVar[f[1]] = true
+				if strings.HasPrefix(l, "(define-fun ") {
+					defBody[f[1]] = l
+				}
+			}
+		}
+	}
+	// goal = last assert
+	goalIdx := -1
+	for i := len(lines) - 1; i >= 0; i-- {
+		if strings.HasPrefix(lines[i], "(assert ") {
+			goalIdx = i
+			break
+		}
+	}
+	if goalIdx < 0 {
+		return script
+	}
+	cone := map[string]bool{}
+	var work []string
+	add := func(text string) {
+		for _, s := range symRe.FindAllString(text, -1) {
+			if isVar[s] && !cone[s] {
+				cone[s] = true
+				work = append(work, s)
+			}
+		}
+	}
+	add(lines[goalIdx])
+	for len(work) > 0 {
+		s := work[len(work)-1]
+		work = work[:len(work)-1]
+		if body, ok := defBody[s]; ok {
+			add(body)
+		}
+	}
+	var b strings.Builder
+	for i, l := range lines {
+		switch {
+		case i == goalIdx:
+			b.WriteString(l + "\n")
+		case strings.HasPrefix(l, "(define-fun ") || strings.HasPrefix(l, "(declare-const "):
+			f := strings.Fields(l)
+			if len(f) >= 2 && (cone[f[1]] || !strings.HasPrefix(f[1], "g_")) {
+				b.WriteString(l + "\n")
+			} else if len(f) >= 2 && !isVar[f[1]] {
+				b.WriteString(l + "\n")
+			}
+		case strings.HasPrefix(l, "(assert (forall"):
+			// dropped
+		case strings.HasPrefix(l, "(assert "):
+			ok := true
+			for _, s := range symRe.FindAllString(l, -1) {
+				if isVar[s] && !cone[s] {
+					ok = false
+					break
+				}
+			}
+			if ok {
+				b.WriteString(l + "\n")
+			}
+		default:
+			b.WriteString(l + "\n")
+		}
+	}
 	return b.String()
 }
